@@ -84,6 +84,12 @@ class UserMove(Logged):
             atoms.set_cell(c, scale_atoms=True)
         return RESULTS[self.result]
 
+    def __eq__(self, other):  # value equality, as a dataclass would define it: two distinct moves may compare equal
+        return isinstance(other, UserMove) and (self.behaviour, self.result) == (other.behaviour, other.result)
+
+    def __hash__(self):
+        return hash((self.behaviour, self.result))
+
     def on_atoms_changed(self, added_indices, removed_indices):
         self.atoms_notes.append((list(map(int, added_indices)), list(map(int, removed_indices))))
 
@@ -186,6 +192,8 @@ def run(spec):
             if driver not in ("Isobaric", "Isotension") and behaviour in ("cell", "shear"):
                 behaviour = "displace"  # a cell change is a legitimate trial only in the ensembles whose state includes the cell
             res = results[(i + b * 5 + spec["j"] * 3) % len(results)]
+            if b == 1 and i % 3 == 0:
+                behaviour, res = users[0][3], users[0][4]  # a second, distinct move object that compares equal to the first
             mv = UserMove(behaviour, res, tag=b)
             crit_kind = str(rng.choice(["user", "user", "shipped"]))
             if crit_kind == "user" or driver == "MonteCarlo":
